@@ -13,9 +13,10 @@
     - [cl_identifiers]: declared identifiers (enum types, enum constants, <Op>Data, <F>Fragment,
       sel<T><n>, the json import) are pairwise distinct usable Go identifiers, field names are
       identifiers, no type is named by a keyword, no field carries two tags.  This clause is what
-      the exclusion [excl_decl_clash] = false grants; it is not derived from the envelope. *)
+      the exclusion [excl_decl_clash] = false grants; [decl_safe_excl] (ClientGenDeclSafe.v) derives
+      it from the names-only condition [decl_safe]. *)
 From Coq Require Import List NArith Bool String.
-From ApiFu Require Import Base.Sexp Gen.GoTypes Gen.ClientGenModel Gen.DecodeModel Gen.ClientGenSpec Gen.ClientGenMain.
+From ApiFu Require Import Base.Sexp Gen.GoTypes Gen.ClientGenModel Gen.DecodeModel Gen.ClientGenSpec Gen.ClientGenMain Gen.ClientGenDeclSafe Gen.LoadSchemaModel Gen.LoadSchemaProofs.
 Import ListNotations.
 
 Definition cl_struct_members (p : program) : Prop := forall d, In d (p_defs p) -> wf_shape (td_type d) = true.
@@ -52,4 +53,65 @@ Theorem gen_wf_clauses : forall S d,
 Proof.
   intros S d H1 H2 H3. destruct (gen_accepts_wf S d H1 H2 H3) as [p [Hg Hw]].
   exists p. split; [exact Hg | apply wf_program_clauses; exact Hw].
+Qed.
+
+(** ** the main statements with the names-only hypothesis [decl_safe] *)
+Lemma env_schema_ok S d : env S d = true -> schema_ok S = true.
+Proof. unfold env. intros H. do 3 (apply andb_true_iff in H as [H _]). exact H. Qed.
+
+Theorem gen_accepts_wf_safe : forall S d,
+  env S d = true -> excl_member_clash S d = false -> decl_safe S d = true ->
+  exists p, generate no_quirks S (doc_valid S d) d = GOk p /\ wf_program p = true.
+Proof.
+  intros S d H1 H2 H3. apply (gen_accepts_wf S d H1 H2). apply decl_safe_excl; [apply (env_schema_ok S d H1) | exact H3].
+Qed.
+
+Theorem gen_wf_clauses_safe : forall S d,
+  env S d = true -> excl_member_clash S d = false -> decl_safe S d = true ->
+  exists p, generate no_quirks S (doc_valid S d) d = GOk p /\
+            cl_struct_members p /\ cl_references p /\ cl_method_forwarders p /\ cl_identifiers p.
+Proof.
+  intros S d H1 H2 H3. apply (gen_wf_clauses S d H1 H2). apply decl_safe_excl; [apply (env_schema_ok S d H1) | exact H3].
+Qed.
+
+Theorem gen_decodes_safe : forall S d,
+  env S d = true -> excl_member_clash S d = false -> decl_safe S d = true ->
+  forall p o opname w,
+    generate no_quirks S (doc_valid S d) d = GOk p ->
+    In o (d_ops d) -> op_name o = Some opname -> conforms S o w = true ->
+    exists n v, (forall fuel, (n <= fuel)%nat -> decode_op p fuel opname (json_of w) = DOk v) /\
+                (forall pl, In pl (leaves v) <-> In pl (expected S o w)).
+Proof.
+  intros S d H1 H2 H3. apply (gen_decodes S d H1 H2). apply decl_safe_excl; [apply (env_schema_ok S d H1) | exact H3].
+Qed.
+
+(** ** the same about the generator as run from the command line (LoadSchema from the introspection
+    JSON, then Generate): [schema_loadable] = no field type has more than seven wrappers *)
+Theorem cli_accepts_wf : forall S d,
+  env S d = true -> schema_loadable S = true -> excl_member_clash S d = false -> decl_safe S d = true ->
+  exists p, generate_cli no_quirks S (doc_valid S d) d = GOk p /\ wf_program p = true.
+Proof. intros S d H1 HL H2 H3. rewrite (generate_cli_loadable _ _ _ _ HL). apply gen_accepts_wf_safe; assumption. Qed.
+
+Theorem cli_wf_clauses : forall S d,
+  env S d = true -> schema_loadable S = true -> excl_member_clash S d = false -> decl_safe S d = true ->
+  exists p, generate_cli no_quirks S (doc_valid S d) d = GOk p /\
+            cl_struct_members p /\ cl_references p /\ cl_method_forwarders p /\ cl_identifiers p.
+Proof. intros S d H1 HL H2 H3. rewrite (generate_cli_loadable _ _ _ _ HL). apply gen_wf_clauses_safe; assumption. Qed.
+
+Theorem cli_decodes : forall S d,
+  env S d = true -> schema_loadable S = true -> excl_member_clash S d = false -> decl_safe S d = true ->
+  forall p o opname w,
+    generate_cli no_quirks S (doc_valid S d) d = GOk p ->
+    In o (d_ops d) -> op_name o = Some opname -> conforms S o w = true ->
+    exists n v, (forall fuel, (n <= fuel)%nat -> decode_op p fuel opname (json_of w) = DOk v) /\
+                (forall pl, In pl (leaves v) <-> In pl (expected S o w)).
+Proof.
+  intros S d H1 HL H2 H3 p o opname w Hg. rewrite (generate_cli_loadable _ _ _ _ HL) in Hg.
+  apply (gen_decodes_safe S d H1 H2 H3 p o opname w Hg).
+Qed.
+
+Theorem cli_invalid_no_output : forall Q S d p, doc_valid S d = false -> generate_cli Q S (doc_valid S d) d <> GOk p.
+Proof.
+  intros Q S d p H. rewrite H. unfold generate_cli. destruct (load_schema S) as [S'|]; [|discriminate].
+  unfold generate, generate_raw. simpl. discriminate.
 Qed.
